@@ -50,7 +50,8 @@ def floors(ctx):
          "cases_with_big_attrs": 20, "cases_with_classes_pickled_by_value": 20 if q else 100,
          "cases_with_by_value_class_using_super": 10 if q else 60, "cases_with_slotted_subclass": 20,
          "cases_with_classes_defined_in_a_script_main": 10,
-         "deep_graphs_referred_to_by_a_by_value_closure": 2, "cases_with_values_of_str_or_int_subclasses": 50}
+         "deep_graphs_referred_to_by_a_by_value_closure": 2, "cases_with_values_of_str_or_int_subclasses": 50,
+         "cases_with_deeply_nested_plain_attribute_data": 5}
     for p in range(6):
         f[f"proto{p}"] = 10
     f["protodefault"] = 5
@@ -98,6 +99,18 @@ def decorate(rng, objs, mode):
         vs[0].nums = [255, 256, 257, 65535, 65536, 2 ** 31, 2 ** 63, -(2 ** 63) - 1]
         if len(vs) > 1:
             vs[1].text2 = "w" * 70001 + "\u00e9"
+    if mode == "deepdata":
+        # plain attribute data that nests far deeper than the interpreter's recursion limit: a cons list, a chain of
+        # lists, a chain of dicts (the canonical form compares them level by level, iteratively)
+        depth = 3000
+        cons, lst, dct = None, [], {}
+        for i in range(depth):
+            cons = (i, cons)
+            lst = [lst, i]
+            dct = {"next": dct, "i": i}
+        vs[0].cons = cons
+        vs[-1].nested_list = lst
+        vs[0].nested_dict = dct
     if mode in ("containers", "shared"):
         for v in vs:
             if rng.random() < 0.4:
@@ -523,6 +536,9 @@ def run(ctx):
         else:
             desc = {"source": "spec", "spec": graphs.rand_spec(rng, nmax=8, mmax=16, uni_mode="rand")}
         desc["attrs"] = rng.choice(["none", "prims", "containers", "shared", "shared", "big"] if i % 9 else ["big"])
+        if i % 60 == 7:
+            desc["attrs"] = "deepdata"
+            ctx.count("cases_with_deeply_nested_plain_attribute_data")
         desc["dseed"] = rng.randrange(10 ** 6)
         objs = build_from_desc(desc)
         if not any(isinstance(o, Vertex) for o in objs):
